@@ -148,7 +148,8 @@ def claims(tier):
     cl.append(Claim("velocity", c10_velocity, timeout=300, bounds="velocity: every integer (unbounded, symbolic)"))
     cl.append(Claim("channel", c10_channel, timeout=300, bounds="channel: every integer (unbounded, symbolic)"))
     cl.append(Claim("bad_name", c10_bad_name, pre=[lambda s: 1 <= len(s) <= (3 if q else 4)], timeout=900 if q else 3000, bounds="every unicode string of length 1..%d without '-' that is not letter+accidentals" % (3 if q else 4)))
-    cl.append(Claim("helmholtz", c10_helmholtz, pre=[lambda name, o: spelled(name, 1 if q else 2) and 0 <= o <= 9], timeout=900 if q else 3000, bounds="name = letter + {#,b}^<=%d (symbolic); octave 0..9 (realised)" % (1 if q else 2)))
+    cl.append(Claim("helmholtz", c10_helmholtz, pre=[lambda name, o: spelled(name, 1 if q else 2) and 0 <= o <= 9], timeout=900 if q else 3000, bounds="name = letter + {#,b}^<=%d (symbolic); octave 0..9 (enumerated)" % (1 if q else 2)))
+    cl.append(Claim("helmholtz_double", c10_helmholtz, pre=[lambda name, o: spelled(name, 2) and len(name) == 3 and name[1] == name[2] and 0 <= o <= 9], timeout=900 if q else 3000, bounds="name = letter + ## or bb (symbolic); octave 0..9 (enumerated)"))
     for si in range(len(STD) if not q else 2):
         cl.append(Claim("hertz[std=%s]" % STD[si], c10_hertz, params={"si": si}, group="c10_hertz", pre=[lambda p, si, di: 0 <= p <= 115 and si == P["si"] and 0 <= di < len(DETUNE)], timeout=900, bounds="note 0..115 (+12 for the octave clause, i.e. 0..127) x standard pitch %s x detune %r cents; concrete doubles (enumerated)" % (STD[si], DETUNE)))
     cl.append(Claim("octave_floor", c10_octave_floor, pre=[lambda o: 0 <= o], timeout=300, bounds="octave >= 0 and diff: every integer (unbounded, symbolic)"))
